@@ -62,7 +62,7 @@ KIND_TEXT = {
     "KReacquire": "lock acquired while already held", "KAcqUndeclared": "acquires a lock missing from its acquires entry",
     "KRelMode": "lock released in the wrong mode", "KRelNotHeld": "release of a lock that is not held", "KRelUndeclared": "release of an undeclared lock",
     "KUnguardedRead": "unguarded read of", "KUnguardedWrite": "unguarded write of", "KImmutableWrite": "write of an immutable field outside a constructor:",
-    "KCallback": "callback runs under a lock it may acquire:",
+    "KCallback": "callback (or, for wait:..., a blocking wait that is not a mutex operation) runs under a lock it may acquire / depend on:",
     "KCheckThenAct": "check-then-act: written in one critical section on the strength of a read made in an earlier, released critical section of the same lock (not re-read):",
     "KLockOrder": "acquired (or callee / callback that acquires it reached) while a lock of equal or higher rank is held:", "KCallRequires": "call without the locks the callee requires:",
     "KCallHolding": "call while holding a lock the callee (or a callback / goroutine it reaches) acquires:",
@@ -109,9 +109,10 @@ def _compile_obligation(ctx, d, fname):
     thms = re.findall(r"^(?:Theorem|Corollary)\s+(\w+)", text, re.M)
     rc, out = V.coqc(fname, d, extra=["-R", d, ""])
     complaints = []
-    for blk in re.split(r"(?m)^(?:cta_)?complaints =", out)[1:]:
+    for blk in re.split(r"(?m)^(?:cta_|wait_)?complaints =", out)[1:]:
         body = blk.split("\n     :", 1)[0]
         complaints += [(a, k, s.replace('""', '"')) for a, k, s in _TRIPLE.findall(re.sub(r"\s+", " ", body))]
+    complaints = list(dict.fromkeys(complaints))
     return rc == 0, complaints, thms, out
 
 
